@@ -245,6 +245,9 @@ def norm_cond(c):
         if c[0] == "cmp" and c[1] == "!=":
             c, pol = ("cmp", "==", c[2], c[3]), not pol
             continue
+        if c[0] == "cmp" and c[1] == "not in":
+            c, pol = ("cmp", "in", c[2], c[3]), not pol
+            continue
         return c, pol
 
 
